@@ -314,7 +314,7 @@ type sweepCase struct {
 	Want  []string `json:"want,omitempty"` // hex, acceptable results
 }
 
-type sweepOut struct {
+type lspSweepOut struct {
 	Docs            int         `json:"docs"`
 	Edits           int         `json:"edits"`
 	Ambiguous       int         `json:"ambiguous"` // edits on which the protocol leaves a choice
@@ -343,7 +343,7 @@ func allLines(alpha []string, maxChars int) []string {
 
 func unitsOf(s string) int { return len(utf16.Encode([]rune(s))) }
 
-func runSweep(cfg sweepCfg) sweepOut {
+func runSweep(cfg sweepCfg) lspSweepOut {
 	var alpha, texts []string
 	for _, a := range cfg.Alphabet {
 		alpha = append(alpha, unhx(a))
@@ -385,14 +385,14 @@ func runSweep(cfg sweepCfg) sweepOut {
 		workers = 16
 	}
 	var mu sync.Mutex
-	var out sweepOut
+	var out lspSweepOut
 	var wg sync.WaitGroup
 	// deterministic sampling: every emitEvery-th edit of worker 0's share
 	for w := 0; w < workers; w++ {
 		wg.Add(1)
 		go func(w int) {
 			defer wg.Done()
-			var loc sweepOut
+			var loc lspSweepOut
 			cnt := 0
 			for di := (cfg.Seed % cfg.Stride) + w*cfg.Stride; di < total; di += workers * cfg.Stride {
 				doc := docAt(di)
